@@ -637,7 +637,7 @@ def ops_for(rng, x, y, d):
     # ---- products -----------------------------------------------------------------------------
     if nd >= 1:
         k = int(rng.integers(1, 4))
-        md = gen.dense(rng, (shp[-1], k), 0)
+        md = gen.dense(rng, (shp[-1], k), 0).astype(d.dtype)  # same dtype as x: two typed-kernel families to compile, not four
         mf = S.COO.from_numpy(md)
         mg = S.GCXS.from_numpy(md)
         yield "prod:dot(sparse)", lambda: S.dot(x, mf), [mf], []
